@@ -63,7 +63,7 @@ def run(prop, tier):
     records = []
     cases_all = []
     for n, small in plan:
-        r, cases = C.enumerate_cases(["Rat", "Covout", "MCCovout"], "MCCovout", cfg(n, small), timeout=3000 if thorough else 600)
+        r, cases = C.enumerate_cases(["Rat", "Covout", "MCCovout"], "MCCovout", cfg(n, small), timeout=3000 if thorough else 1500)
         cov["states"] += r.distinct
         cov["transitions"] += r.generated
         cov["plan"].append(dict(N=n, small_grids=small, cases=len(cases)))
